@@ -26,6 +26,10 @@ class Sys:
         self.moon_n = [o.get_orbital_frequency(self.moon), days2rads(3.3), days2rads(0.9)]
         self.st_a = [o.get_semi_major_axis(self.host, for_stellar_orbit=True), 6.0e11, 9.5e11]
         self.buffers = {}
+        # mass ids of OrbitTriple.tla (MoonMass / HostMass): world.set_geometry(radius, mass)
+        self.moon_mass = [float(self.moon.mass), 400.0 * float(self.moon.mass)]
+        self.host_mass = [float(self.host.mass), 0.5 * float(self.host.mass)]
+        self.stale = []
 
     def shape(self, key, v, i):
         if self.form == "scalar":
@@ -47,12 +51,14 @@ class Sys:
             return "orbital_frequency", self.shape(("moon", "n"), n, i)
         if kind == "P":
             return "orbital_period", self.shape(("moon", "P"), float(rads2days(n)), i)
-        return "semi_major_axis", self.shape(("moon", "a"), float(self.o.orbital_motion2semi_a(self.moon, n)), i)
+        from TidalPy.utilities.conversions import orbital_motion2semi_a
+        return "semi_major_axis", self.shape(("moon", "a"), float(orbital_motion2semi_a(n, float(self.host.mass), float(self.moon.mass))), i)
 
     def st_arg(self, kind, i):
         from TidalPy.utilities.conversions import rads2days
         a = self.st_a[i]
-        n = float(self.o.semi_a2orbital_motion(self.host, a, set_stellar_orbit=True))
+        from TidalPy.utilities.conversions import semi_a2orbital_motion
+        n = float(semi_a2orbital_motion(a, float(self.star.mass), float(self.host.mass)))
         if kind == "a":
             return "semi_major_axis", self.shape(("st", "a"), a, i)
         if kind == "n":
@@ -83,6 +89,10 @@ class Sys:
             v, via = p
             _, val = self.st_arg("a", v)
             o.set_stellar_distance(self.host if via == "host" else self.moon, val)
+        elif act == "MoonMass":
+            self.moon.set_geometry(self.moon.radius, self.moon_mass[p[0]])
+        elif act == "HostMass":
+            self.host.set_geometry(self.host.radius, self.host_mass[p[0]])
         else:
             raise ValueError(act)
 
@@ -102,8 +112,20 @@ class Sys:
             a, n, P = (np.asarray(x, dtype=float) for x in (a, n, P))
             r1 = float(np.max(np.abs(n ** 2 * a ** 3 / (G * M) - 1.0)))
             r2 = float(np.max(np.abs(P * 86400.0 * n / (2 * math.pi) - 1.0)))
+            current = st.get(name + "_current", True)
+            if not current:
+                # the triple predates a mass change (OrbitTriple.tla: m # current mass ids): as found nothing re-derives it; it must
+                # still be the triple of its own update, Keplerian for the masses of THAT time (st[name + "_m"])
+                ids = st[name + "_m"]
+                M_then = (self.host_mass[ids[1]] + self.moon_mass[ids[0]]) if name == "moon" else (float(self.star.mass) + self.host_mass[ids[0]])
+                r_then = float(np.max(np.abs(n ** 2 * a ** 3 / (G * M_then) - 1.0)))
+                if r1 > 1e-12:
+                    self.stale.append({"orbit": name, "r_current": r1, "r_then": r_then})
+                if r_then > 1e-12 or r2 > 1e-12:
+                    bad.append({"orbit": name, "what": "kepler_stale", "detail": "triple kept across a mass change is not even the old Keplerian one: %.3g, P n/2pi - 1 = %.3g" % (r_then, r2)})
+                continue
             if r1 > 1e-12 or r2 > 1e-12:
-                bad.append({"orbit": name, "what": "kepler", "detail": "n^2 a^3/(G(M+m)) - 1 = %.3g, P n/2pi - 1 = %.3g" % (r1, r2)})
+                bad.append({"orbit": name, "what": "kepler", "detail": "n^2 a^3/(G(M+m)) - 1 = %.3g (current masses), P n/2pi - 1 = %.3g" % (r1, r2)})
             i = st[name]
             if name == "moon":
                 exp = self.moon_n[i]
@@ -124,7 +146,7 @@ def main():
     res = []
     for beh in job["behaviours"]:
         S = Sys(job["form"])
-        out = {"steps": 0, "bad": None}
+        out = {"steps": 0, "bad": None, "stale": S.stale}
         for k, (act, params, st) in enumerate(beh):
             try:
                 if act != "Init":
